@@ -461,6 +461,15 @@ fn dirty(w: &World) -> Ciphertext {
     Ciphertext::from_members(3, k, w.n, vec![0xAAAA_AAAA_AAAA_AAAAu64; 3 * k * w.n], last.id, 2.5, 7, !w.expect_ntt())
 }
 
+/// a destination that already "looks right" for an encryption at level li: same size (2) and parms id as the result, but a
+/// stale representation flag, scale and BGV factor, and junk data (seeded round 4: two changes skipped the metadata reset for
+/// a destination of matching size and level)
+fn dirty_same(w: &World, li: usize) -> Ciphertext {
+    let l = &w.levels[li];
+    let k = l.lvl.moduli.len();
+    Ciphertext::from_members(2, k, w.n, vec![0x5555_5555_5555_5555u64 >> 4; 2 * k * w.n], l.id, 2.5, 7, !w.expect_ntt())
+}
+
 fn same_ct(a: &Ciphertext, b: &Ciphertext) -> bool {
     ct_fingerprint(a) == ct_fingerprint(b) && a.data() == b.data()
 }
@@ -630,6 +639,12 @@ fn encrypt_mode_at(w: &World, li: usize, mode: Mode, pt: &Plaintext, seed: u64, 
             if !same_ct(&a, &d) {
                 return Err(bad("dest-differs", "encrypt(plain, &mut reused destination) is byte-identical to encrypt_new under the same entropy", format!("new: {} / dest: {}", ct_meta(&a), ct_meta(&d))));
             }
+            reset();
+            let mut d2 = dirty_same(w, li);
+            guard(|| enc.encrypt(pt, &mut d2)).map_err(|p| pan("encrypt", p))?;
+            if !same_ct(&a, &d2) {
+                return Err(bad("dest-differs", "encrypt(plain, &mut destination of the result's size and level with stale metadata) is byte-identical to encrypt_new under the same entropy", format!("new: {} / dest: {}", ct_meta(&a), ct_meta(&d2))));
+            }
             d
         }
         Mode::Sk => {
@@ -640,6 +655,12 @@ fn encrypt_mode_at(w: &World, li: usize, mode: Mode, pt: &Plaintext, seed: u64, 
             guard(|| enc.encrypt_symmetric(pt, &mut d)).map_err(|p| pan("encrypt_symmetric", p))?;
             if !same_ct(&a, &d) {
                 return Err(bad("dest-differs", "encrypt_symmetric into a reused destination equals the one into a fresh destination", format!("fresh: {} / reused: {}", ct_meta(&a), ct_meta(&d))));
+            }
+            reset();
+            let mut d2 = dirty_same(w, li);
+            guard(|| enc.encrypt_symmetric(pt, &mut d2)).map_err(|p| pan("encrypt_symmetric", p))?;
+            if !same_ct(&a, &d2) {
+                return Err(bad("dest-differs", "encrypt_symmetric into a destination of the result's size and level with stale metadata equals the one into a fresh destination", format!("fresh: {} / reused: {}", ct_meta(&a), ct_meta(&d2))));
             }
             d
         }
